@@ -276,3 +276,59 @@ func c10Window(c *vrep.Ctx) {
 		}
 	})
 }
+
+// c10_wordsets: inputs that hold (nearly) the whole vocabulary of a corpus document in far fewer
+// tokens than the document has - its distinct words once each - through every entry point, on the
+// embedded corpus at several thresholds.
+func init() { vRegister("c10_wordsets", c10WordSets) }
+
+func c10WordSets(c *vrep.Ctx) {
+	ts := []float64{0.5, 0.8, 0.95}
+	cls := make([]*Classifier, len(ts))
+	for i, t := range ts {
+		cls[i] = vEmbeddedCached(t)
+	}
+	docs := vDocPool(c.Pick(431, 431))
+	c.R.Rule = fmt.Sprintf("%d embedded documents x their distinct words once each (first-occurrence order, reversed, first 12 words + vocabulary) x {Match, MatchFrom, Normalize} x thresholds %v on the embedded corpus: no panic, no error, the caller's bytes unchanged; non-trivial = all cases", len(docs), ts)
+	c.Bound("documents", len(docs))
+	body := func(r *vx.Run) {
+		cs := vChooseCorpusCase(r, docs, []string{"wordset"})
+		if r.Scout() {
+			return
+		}
+		keep := append([]byte(nil), cs.In...)
+		var msgs []string
+		for ti, cl := range cls {
+			for ai, api := range []string{"Match", "MatchFrom", "Normalize"} {
+				msg := vPanics(func() {
+					switch ai {
+					case 0:
+						cl.Match(cs.In)
+					case 1:
+						if _, err := cl.MatchFrom(bytes.NewReader(cs.In)); err != nil {
+							panic("unexpected error " + err.Error())
+						}
+					case 2:
+						NewClassifier(ts[ti]).Normalize(cs.In)
+					}
+				})
+				c.R.Evaluations++
+				c.R.Nontrivial++
+				if msg != "" {
+					msgs = append(msgs, fmt.Sprintf("%s T=%v: panic: %s", api, ts[ti], msg))
+				}
+			}
+		}
+		if !bytes.Equal(keep, cs.In) {
+			msgs = append(msgs, "the caller's bytes were modified")
+		}
+		r.Note = map[string]interface{}{"id": cs.ID, "msgs": msgs}
+	}
+	c.Run(vSplitExplorer(c, 0, 2), body, func(r *vx.Run) {
+		c.R.Evaluations--
+		if ms := r.Note["msgs"].([]string); len(ms) > 0 {
+			id := r.Note["id"].(string)
+			c.Violate("c10_wordsets:"+strings.ReplaceAll(id, " ", "_"), id+": "+ms[0], r, strings.Join(ms, "\n"))
+		}
+	})
+}
